@@ -51,4 +51,20 @@ __attribute__((noinline)) unsigned w_tce_desc_lines(const unsigned char* control
     TaprootCommitmentEnv tce(c, p, s, &leaf);
     return tce.Description().size();
 }
+#ifdef VERIF_NATIVE
+// native replay helper (not part of the code under test): the real tweaked key for (internal key, tweak) through the bundled libsecp256k1 API
+}
+#include <secp256k1.h>
+#include <secp256k1_extrakeys.h>
+extern "C" {
+int w_real_tweak(const unsigned char* p32, const unsigned char* t32, unsigned char* out33) {
+    secp256k1_xonly_pubkey base; secp256k1_pubkey out; secp256k1_xonly_pubkey x; int parity = 0;
+    const secp256k1_context* ctx = secp256k1_context_no_precomp;
+    if (!secp256k1_xonly_pubkey_parse(ctx, &base, p32)) return 0;
+    if (!secp256k1_xonly_pubkey_tweak_add(ctx, &out, &base, t32)) return 0;
+    if (!secp256k1_xonly_pubkey_from_pubkey(ctx, &x, &parity, &out)) return 0;
+    secp256k1_xonly_pubkey_serialize(ctx, out33 + 1, &x); out33[0] = (unsigned char)parity;
+    return 1;
+}
+#endif
 }
